@@ -263,6 +263,8 @@ class Interp:
             return  # the expanded call already bound its return value
         if isinstance(node, ast.Assign):
             t = self.tags(node.value, st, fn)
+            if isinstance(node.value, ast.Constant) and node.value.value is None:
+                t = {"none"}  # `cached = None` in a handler: the sentinel for "nothing usable was loaded"
             for tgt in node.targets:
                 self.assign(tgt, t, st)
         elif isinstance(node, ast.AnnAssign) and node.value is not None:
@@ -320,6 +322,10 @@ class Interp:
             pair = ("load" in tl and "key" in tr) or ("load" in tr and "key" in tl)
             if pair and ((isinstance(op, ast.Eq) and outcome) or (isinstance(op, ast.NotEq) and not outcome)):
                 st.verified = True
+        if isinstance(test, ast.Call) and isinstance(test.func, ast.Name) and test.func.id == "isinstance" and len(test.args) == 2 and isinstance(test.args[0], ast.Name):
+            # isinstance(None, <container type>) is False: the sentinel cannot pass a shape test
+            if self.tags(test.args[0], st, fn) == {"none"} and "NoneType" not in unparse(test.args[1]) and outcome:
+                raise Infeasible
         if isinstance(test, ast.Call) and isinstance(test.func, ast.Attribute) and test.func.attr in {"equals", "__eq__"}:
             tl = self.tags(test.func.value, st, fn)
             tr = self.tags(test.args[0], st, fn) if test.args else set()
